@@ -1,2 +1,345 @@
-// Package c03 binds the TLA+ specification of property C03 to the Go code.
+// Package c03 binds spec/names (Names.tla) to netutil.ValidateHostname,
+// ValidateDomainName and ValidateSRVDomainName (property C03).
 package c03
+
+import (
+	"bufio"
+	"encoding/json"
+	"fmt"
+	"math/rand/v2"
+	"os"
+	"runtime"
+	"strconv"
+	"strings"
+	"sync"
+	"sync/atomic"
+
+	"github.com/AdguardTeam/golibs/netutil"
+	"golang.org/x/net/idna"
+
+	"verifharness/internal/vh"
+)
+
+func init() {
+	vh.Register("c03", "replay-names", replayNames)
+	vh.Register("c03", "record", record)
+	vh.Register("c03", "one", one)
+}
+
+// Vector is one line of names_vectors.ndjson.
+type Vector struct {
+	R     [][2]any `json:"r"`
+	Host  bool     `json:"host"`
+	Srv   bool     `json:"srv"`
+	Dom   bool     `json:"dom"`
+	Label bool     `json:"label"`
+	Len   int      `json:"len"`
+}
+
+// Runs decodes the [["L",3],...] form.
+func (v *Vector) Runs() ([]Run, error) {
+	out := make([]Run, len(v.R))
+	for i, p := range v.R {
+		c, ok1 := p[0].(string)
+		n, ok2 := p[1].(float64)
+		if !ok1 || !ok2 || n < 1 {
+			return nil, fmt.Errorf("bad run %v", p)
+		}
+		out[i] = Run{C: c, N: int(n)}
+	}
+	return out, nil
+}
+
+// ParallelLines feeds every line of a TLC-written vector file (JSON string
+// literal containing JSON) to f from several goroutines.  f gets a worker id.
+func ParallelLines(path string, workers int, f func(w int, raw []byte) error) error {
+	fh, err := os.Open(path)
+	if err != nil {
+		return err
+	}
+	defer fh.Close()
+	type batch [][]byte
+	ch := make(chan batch, 4*workers)
+	var wg sync.WaitGroup
+	var firstErr atomic.Value
+	for w := 0; w < workers; w++ {
+		wg.Add(1)
+		go func(w int) {
+			defer wg.Done()
+			for b := range ch {
+				for _, line := range b {
+					if firstErr.Load() != nil {
+						continue
+					}
+					raw := line
+					if len(raw) > 0 && raw[0] == '"' {
+						var s string
+						if err := json.Unmarshal(raw, &s); err != nil {
+							firstErr.CompareAndSwap(nil, fmt.Errorf("%s: %w", path, err))
+							continue
+						}
+						raw = []byte(s)
+					}
+					if err := f(w, raw); err != nil {
+						firstErr.CompareAndSwap(nil, fmt.Errorf("%s: %w", path, err))
+					}
+				}
+			}
+		}(w)
+	}
+	sc := bufio.NewScanner(fh)
+	sc.Buffer(make([]byte, 1<<20), 1<<26)
+	cur := make(batch, 0, 512)
+	for sc.Scan() {
+		b := sc.Bytes()
+		if len(b) == 0 {
+			continue
+		}
+		cur = append(cur, append([]byte(nil), b...))
+		if len(cur) == 512 {
+			ch <- cur
+			cur = make(batch, 0, 512)
+		}
+	}
+	if len(cur) > 0 {
+		ch <- cur
+	}
+	close(ch)
+	wg.Wait()
+	if err := sc.Err(); err != nil {
+		return err
+	}
+	if e := firstErr.Load(); e != nil {
+		return e.(error)
+	}
+	return nil
+}
+
+// Workers is the parallelism of the replayers.
+func Workers() int {
+	n := runtime.NumCPU()
+	if n > 16 {
+		n = 16
+	}
+	if n < 1 {
+		n = 1
+	}
+	return n
+}
+
+// Observed is what one validator did on one input.
+type Observed struct {
+	Nil      bool   `json:"nil"`
+	Type     string `json:"type"`        // dynamic type of the error, "nil" when none
+	AddrIsIn bool   `json:"addrIsInput"` // *AddrError with Addr == the input
+	Panic    string `json:"panic,omitempty"`
+}
+
+func observe(f func(string) error, s string) (o Observed) {
+	pv, panicked := vh.Try(func() {
+		err := f(s)
+		if err == nil {
+			o.Nil, o.Type = true, "nil"
+			return
+		}
+		o.Type = fmt.Sprintf("%T", err)
+		if ae, ok := err.(*netutil.AddrError); ok && ae != nil {
+			o.AddrIsIn = ae.Addr == s
+		}
+	})
+	if panicked {
+		o = Observed{Type: "panic", Panic: fmt.Sprint(pv)}
+	}
+	return o
+}
+
+type validator struct {
+	name string
+	f    func(string) error
+}
+
+var validators = []validator{
+	{"ValidateHostname", netutil.ValidateHostname},
+	{"ValidateSRVDomainName", netutil.ValidateSRVDomainName},
+	{"ValidateDomainName", netutil.ValidateDomainName},
+}
+
+// Expected is the statement of C03 evaluated with the named reference
+// idna.ToASCII and the reference grammar.
+func Expected(s string) (t string, failed bool, want [3]bool) {
+	t, err := idna.ToASCII(s)
+	if err != nil {
+		return t, true, want
+	}
+	want[0], want[1], want[2] = RefVerdicts(t)
+	return t, false, want
+}
+
+// CheckOne runs the three validators on s and returns the first disagreement
+// with want / the error shape / the hierarchy, or "".
+func CheckOne(s string, want [3]bool) (fn, what string, obs [3]Observed) {
+	for i, v := range validators {
+		obs[i] = observe(v.f, s)
+	}
+	for i, v := range validators {
+		o := obs[i]
+		switch {
+		case o.Panic != "":
+			return v.name, "panic: " + o.Panic, obs
+		case o.Nil != want[i]:
+			return v.name, fmt.Sprintf("returned nil=%v, the grammar says valid=%v", o.Nil, want[i]), obs
+		case !o.Nil && o.Type != "*netutil.AddrError":
+			return v.name, "rejection is a " + o.Type + ", not a *netutil.AddrError", obs
+		case !o.Nil && !o.AddrIsIn:
+			return v.name, "AddrError.Addr is not the original input", obs
+		}
+	}
+	if obs[0].Nil && !obs[1].Nil {
+		return "ValidateSRVDomainName", "hostname-valid name is not SRV-valid", obs
+	}
+	if obs[1].Nil && !obs[2].Nil {
+		return "ValidateDomainName", "SRV-valid name is not domain-name-valid", obs
+	}
+	return "", "", obs
+}
+
+func shortQ(s string) string {
+	q := fmt.Sprintf("%q", s)
+	if len(q) > 700 {
+		q = q[:340] + "…" + q[len(q)-340:] + fmt.Sprintf("(len %d)", len(s))
+	}
+	return q
+}
+
+type specBugs struct {
+	mu sync.Mutex
+	n  int
+	ex []string
+}
+
+func (b *specBugs) add(format string, a ...any) {
+	b.mu.Lock()
+	defer b.mu.Unlock()
+	b.n++
+	if len(b.ex) < 8 {
+		b.ex = append(b.ex, fmt.Sprintf(format, a...))
+	}
+}
+
+func (b *specBugs) err() error {
+	if b.n == 0 {
+		return nil
+	}
+	return fmt.Errorf("%d disagreement(s) between the TLA+ grammar and the reference (spec/harness bug, not a finding): %s",
+		b.n, strings.Join(b.ex, " | "))
+}
+
+func replayNames(args []string) error {
+	if len(args) != 2 {
+		return fmt.Errorf("usage: replay-names <vectors> <result>")
+	}
+	res, err := vh.NewResult(args[1])
+	if err != nil {
+		return err
+	}
+	nw := Workers()
+	var nvec, nconc, naltered, naccepted atomic.Int64
+	dds := make([]*vh.Dedup, nw)
+	rngs := make([]*rand.Rand, nw)
+	for i := range dds {
+		dds[i] = vh.NewDedup()
+		rngs[i] = vh.Rand(300 + uint64(i))
+	}
+	bugs := &specBugs{}
+	err = ParallelLines(args[0], nw, func(w int, raw []byte) error {
+		var v Vector
+		if err := json.Unmarshal(raw, &v); err != nil {
+			return err
+		}
+		runs, err := v.Runs()
+		if err != nil {
+			return err
+		}
+		n := nvec.Add(1)
+		if len(runs) > 0 {
+			dds[w].Add(raw)
+		}
+		if n%50021 == 1 {
+			res.Sample(map[string]any{"abstract": v.R, "spec": map[string]bool{"host": v.Host, "srv": v.Srv, "dom": v.Dom},
+				"concrete": Concretise(runs, Canonical, nil)})
+		}
+		spec := [3]bool{v.Host, v.Srv, v.Dom}
+		canon := Concretise(runs, Canonical, nil)
+		seen := map[string]bool{}
+		for _, m := range []Mode{Canonical, LowerRandom, MixedRandom, UpperRandom} {
+			s := canon
+			if m != Canonical {
+				s = Concretise(runs, m, rngs[w])
+			}
+			if seen[s] {
+				continue
+			}
+			seen[s] = true
+			nconc.Add(1)
+			t, failed, want := Expected(s)
+			if !failed && t == s {
+				// The text is its own ASCII form: the TLA+ grammar speaks about
+				// exactly this string.
+				if want != spec {
+					bugs.add("%s: spec %v, reference grammar %v", shortQ(s), spec, want)
+					continue
+				}
+			} else {
+				naltered.Add(1)
+			}
+			if want[2] {
+				naccepted.Add(1)
+			}
+			if fn, what, obs := CheckOne(s, want); fn != "" {
+				key := s
+				// Prefer the seed-independent representative as the key.
+				if _, _, cw := Expected(canon); s != canon {
+					if f2, _, _ := CheckOne(canon, cw); f2 == fn {
+						key = canon
+					}
+				}
+				res.Mismatch(fmt.Sprintf("%s(%s)", fn, shortQ(key)), what+" [G names]",
+					map[string]any{"input": s, "input_go": strconv.Quote(s), "abstract": v.R, "toASCII": t, "toASCIIFailed": failed,
+						"expected": map[string]bool{"host": want[0], "srv": want[1], "dom": want[2]}, "observed": obs})
+			}
+		}
+		return nil
+	})
+	if err != nil {
+		return err
+	}
+	if e := bugs.err(); e != nil {
+		return e
+	}
+	d := 0
+	for _, x := range dds {
+		d += x.N()
+	}
+	return res.Close(map[string]any{"vectors": nvec.Load(), "evaluations": nconc.Load() * 3, "concretisations": nconc.Load(),
+		"distinct_nontrivial": d, "idna_altered": naltered.Load(), "accepted_by_grammar": naccepted.Load()})
+}
+
+// one re-executes a single input (bin/check C03 --replay).
+func one(args []string) error {
+	if len(args) != 1 {
+		return fmt.Errorf("usage: one <go-quoted-input>")
+	}
+	s, err := strconv.Unquote(args[0])
+	if err != nil {
+		return err
+	}
+	t, failed, want := Expected(s)
+	fn, what, obs := CheckOne(s, want)
+	out, _ := json.MarshalIndent(map[string]any{"input": s, "input_go": strconv.Quote(s), "toASCII": t, "toASCIIFailed": failed,
+		"abstract":     EncodeRuns(Abstract(t)),
+		"expected":     map[string]bool{"host": want[0], "srv": want[1], "dom": want[2]},
+		"observed":     map[string]Observed{"ValidateHostname": obs[0], "ValidateSRVDomainName": obs[1], "ValidateDomainName": obs[2]},
+		"disagreement": strings.TrimSpace(fn + " " + what)}, "", " ")
+	fmt.Println(string(out))
+	return nil
+}
